@@ -225,7 +225,7 @@ fn make_case(timers: &[(Action, bool)], term: Term, term_time: u32, mailbox: Mai
         bound: None,
         scene: Box::new(ProgScene { variant: crate::progscene::current_variant(),
             spawn,
-            attach: Attach::None,
+            attach: crate::progscene::attach_for(mailbox),
             roles: vec![role],
             clients: vec![ClientSpec { init: vec![HInit::Addr], ops }],
             extra: X { timers: timers.to_vec(), racy, instant, term, term_time },
@@ -243,7 +243,7 @@ fn timer_of(kind: u8, id: u8, p: u32) -> Action {
     }
 }
 
-fn cases(tier: Tier) -> Vec<Case> {
+fn plain_cases(tier: Tier) -> Vec<Case> {
     let mut v = vec![];
     let periods: &[u32] = if tier == Tier::Quick { &[1, 2, 3] } else { &[1, 2, 3, 5] };
     let mbs = [Mailbox::U, Mailbox::B(0), Mailbox::B(1)];
@@ -344,6 +344,21 @@ fn cases(tier: Tier) -> Vec<Case> {
             }
         }
     }
+    v
+}
+
+/// The family on the plain loop plus every fourth case (thorough: every second) on the stream
+/// loop (attached to a stream that never yields). The stream loop has no handler timeouts, so
+/// the timeout-failure terminations stay out of the copy.
+fn cases(tier: Tier) -> Vec<Case> {
+    let mut v = plain_cases(tier);
+    let s = crate::progscene::with_stream_variant(|| plain_cases(tier));
+    let step = if tier == Tier::Thorough { 2 } else { 4 };
+    v.extend(s.into_iter().enumerate().filter(|(i, c)| i % step == 2 % step && !c.desc.contains("TimeoutFail")).map(|(_, mut c)| {
+        c.desc = format!("[stream loop] {}", c.desc);
+        c.exec.select_choice = false;
+        c
+    }));
     v
 }
 
